@@ -1,4 +1,4 @@
-// Package go2lean translates a pure, loop-free (or constant-bounded) numeric subset of Go into
+// Package go2lean translates a pure numeric subset of Go (straight-line code, unrolled and folded loops) into
 // Lean 4 definitions, so that part of the formal model is REGENERATED from /repo's current source
 // on every check (lean/M3d/Gen/Kernels.lean) and the theorems that tie it to the hand-written
 // models are re-proved by the kernel against what the code says now.
@@ -11,15 +11,23 @@
 //
 //	types       float64 -> α, bool -> Bool, int -> Int, named structs / named fixed arrays whose
 //	            members are in the subset -> generated `structure`s (array element i = field ei),
-//	            pointers to those (read, or written only through a pointer receiver: such a method
-//	            becomes a function returning the new receiver value), tuples for multiple results
+//	            slices and named slice types -> List, pointers to those (read, or written only
+//	            through a pointer receiver: such a method becomes a function returning the new
+//	            receiver value), tuples for multiple results; recursive types are rejected
 //	statements  := = op= ++ -- var return if/else (early returns allowed; a continuation is
 //	            duplicated into both branches, or the assigned variables are joined when neither
-//	            branch returns), `for i, x := range <fixed array>` and `for i := a; i < b; i++`
-//	            with constant bounds (unrolled), calls of receiver-mutating methods on a local
-//	expressions + - * / unary -, comparisons, && || !, field access, constant index, composite
-//	            literals, calls to translatable functions/methods, math.Sqrt/Abs/Min/Max,
-//	            float64 constants (integers and decimal literals)
+//	            branch jumps), `for i, x := range <fixed array>` and `for i := a; i < b; i++`
+//	            with constant bounds (unrolled; break/continue become jumps to the continuation of
+//	            the loop / the next iteration when there are at most 4 iterations), every other
+//	            `for i, x := range <slice>` and `for i := a; i < b; i++` (b independent of the
+//	            body) as the structural recursion loopFrom of GenPrelude with Loop.ret/brk/next
+//	            for return/break/continue (loops.go), calls of receiver-mutating methods on a local
+//	expressions + - * / unary -, comparisons, && || !, field access, constant index, variable
+//	            index into arrays of length <= 4, composite literals, calls to translatable
+//	            functions/methods, math.Sqrt/Abs/Min/Max, libm (class HasLibm), math.Inf / IsNaN /
+//	            IsInf (class HasInf), float64 constants; on slices: len, s[i] (zero value when out
+//	            of range, where Go panics), s[a:b], make, append, literals, nil, and the element
+//	            store s[i] = v on locals that are provably unaliased (storableSlices in loops.go)
 //
 // Float `==`/`!=` become feq (¬a<b ∧ ¬b<a), the same on every non-NaN pair.
 package go2lean
@@ -219,6 +227,10 @@ func (t *T) leanType(ty types.Type) (string, error) {
 			// named scalar (e.g. `type dcCubeIdx int`): the scalar itself
 			return t.leanType(b)
 		}
+		if sl, ok := u.Underlying().(*types.Slice); ok {
+			// named slice type (e.g. numerical.Vec): the list itself
+			return t.leanType(sl)
+		}
 		return t.namedType(u)
 	case *types.Array:
 		if u.Len() > 16 {
@@ -266,7 +278,10 @@ func (t *T) structName(n *types.Named) string {
 
 func (t *T) namedType(n *types.Named) (string, error) {
 	name := t.structName(n)
-	if _, ok := t.structs[name]; ok {
+	if decl, ok := t.structs[name]; ok {
+		if decl == "" {
+			return "", fmt.Errorf("recursive type %s is outside the subset", name)
+		}
 		return "(" + name + " α)", nil
 	}
 	if n.Obj().Pkg() == nil || !strings.HasPrefix(n.Obj().Pkg().Path(), modPath) {
@@ -332,6 +347,9 @@ func (t *T) zeroValue(ty types.Type) (string, error) {
 	case *types.Named:
 		if b, ok := u.Underlying().(*types.Basic); ok {
 			return t.zeroValue(b)
+		}
+		if sl, ok := u.Underlying().(*types.Slice); ok {
+			return t.zeroValue(sl)
 		}
 		lt, err := t.namedType(u)
 		if err != nil {
@@ -447,6 +465,21 @@ type fnCtx struct {
 	results  *types.Tuple
 	depth    int
 	synth    map[*ast.Ident]types.Type // identifiers introduced by loop unrolling (no go/types entry)
+	resT     string                    // Lean type of the function's result (ρ of every loop)
+	retWrap  func(string) string       // how `return v` is rendered here (inside a loop body: Loop.ret v)
+	loopPat  []string                  // state tuples of the enclosing folded loops ("" = an unrolled loop), innermost last
+	loopK    []loopConts               // for unrolled loops: what continue / break run next
+	storable map[string]bool           // local slices that are provably unaliased (element stores allowed)
+	body     *ast.BlockStmt
+}
+
+type loopConts struct{ cont, brk func() (string, error) }
+
+func (fx *fnCtx) ret(v string) string {
+	if fx.retWrap != nil {
+		return fx.retWrap(v)
+	}
+	return v
 }
 
 // receiverMutated reports whether the body writes through the pointer receiver.
@@ -582,7 +615,7 @@ func (t *T) function(pi *pkgInfo, fd *ast.FuncDecl, fn string) (string, error) {
 		if !ok {
 			return "", fmt.Errorf("unsupported receiver")
 		}
-		lt, err := t.namedType(named)
+		lt, err := t.leanType(named)
 		if err != nil {
 			return "", err
 		}
@@ -638,6 +671,9 @@ func (t *T) function(pi *pkgInfo, fd *ast.FuncDecl, fn string) (string, error) {
 	if err != nil {
 		return "", fmt.Errorf("result: %v", err)
 	}
+	fx.resT = resT
+	fx.body = fd.Body
+	fx.storable = storableSlices(pi, fd)
 	// named results are locals initialised to zero
 	pre := ""
 	var namedResults []string
@@ -699,7 +735,7 @@ func containsReturn(n ast.Node) bool {
 	found := false
 	ast.Inspect(n, func(m ast.Node) bool {
 		switch m.(type) {
-		case *ast.ReturnStmt:
+		case *ast.ReturnStmt, *ast.BranchStmt:
 			found = true
 		case *ast.FuncLit:
 			return false
@@ -794,7 +830,7 @@ func (fx *fnCtx) block(stmts []ast.Stmt, k func() (string, error)) (string, erro
 			if len(s.Results) != 0 {
 				return "", fmt.Errorf("return with values in a mutating method")
 			}
-			return ident(fx.recvName), nil
+			return fx.ret(ident(fx.recvName)), nil
 		}
 		if len(s.Results) == 0 {
 			// naked return with named results
@@ -806,7 +842,7 @@ func (fx *fnCtx) block(stmts []ast.Stmt, k func() (string, error)) (string, erro
 				}
 				parts = append(parts, ident(n))
 			}
-			return tuple(parts), nil
+			return fx.ret(tuple(parts)), nil
 		}
 		var parts []string
 		for i, r := range s.Results {
@@ -820,7 +856,29 @@ func (fx *fnCtx) block(stmts []ast.Stmt, k func() (string, error)) (string, erro
 			}
 			parts = append(parts, e)
 		}
-		return tuple(parts), nil
+		return fx.ret(tuple(parts)), nil
+	case *ast.BranchStmt:
+		if s.Label != nil || len(fx.loopPat) == 0 {
+			return "", fmt.Errorf("%s outside a folded loop (or labelled) is outside the subset", s.Tok)
+		}
+		if fx.loopPat[len(fx.loopPat)-1] == "" {
+			// unrolled loop: jump to the next iteration / past the loop
+			lk := fx.loopK[len(fx.loopK)-1]
+			switch s.Tok {
+			case token.CONTINUE:
+				return lk.cont()
+			case token.BREAK:
+				return lk.brk()
+			}
+			return "", fmt.Errorf("%s is outside the subset", s.Tok)
+		}
+		switch s.Tok {
+		case token.CONTINUE:
+			return "(Loop.next " + fx.loopPat[len(fx.loopPat)-1] + ")", nil
+		case token.BREAK:
+			return "(Loop.brk " + fx.loopPat[len(fx.loopPat)-1] + ")", nil
+		}
+		return "", fmt.Errorf("%s is outside the subset", s.Tok)
 	case *ast.AssignStmt:
 		line, err := fx.assign(s)
 		if err != nil {
@@ -936,13 +994,29 @@ func (fx *fnCtx) block(stmts []ast.Stmt, k func() (string, error)) (string, erro
 	case *ast.RangeStmt:
 		un, err := fx.unrollRange(s)
 		if err != nil {
+			if out, err2 := fx.foldRange(s, rest); err2 == nil {
+				return out, nil
+			} else if !strings.Contains(err2.Error(), "not a foldable loop") {
+				return "", err2
+			}
 			return "", err
+		}
+		if jumps(s.Body) && len(un) > 4 {
+			return fx.foldRange(s, rest)
 		}
 		return fx.unrolled(un, rest)
 	case *ast.ForStmt:
 		un, err := fx.unrollFor(s)
 		if err != nil {
+			if out, err2 := fx.foldFor(s, rest); err2 == nil {
+				return out, nil
+			} else if !strings.Contains(err2.Error(), "not a foldable loop") {
+				return "", err2
+			}
 			return "", err
+		}
+		if jumps(s.Body) && len(un) > 4 {
+			return fx.foldFor(s, rest)
 		}
 		return fx.unrolled(un, rest)
 	}
@@ -967,18 +1041,6 @@ func (fx *fnCtx) unrolled(steps []unrollStep, rest func() (string, error)) (stri
 		return rest()
 	}
 	st := steps[0]
-	for _, b := range st.body {
-		bad := false
-		ast.Inspect(b, func(n ast.Node) bool {
-			if br, ok := n.(*ast.BranchStmt); ok && (br.Tok == token.BREAK || br.Tok == token.CONTINUE || br.Tok == token.GOTO) {
-				bad = true
-			}
-			return true
-		})
-		if bad {
-			return "", fmt.Errorf("break/continue inside a loop is outside the subset")
-		}
-	}
 	saved := map[string]int64{}
 	for k, v := range fx.consts {
 		saved[k] = v
@@ -991,11 +1053,31 @@ func (fx *fnCtx) unrolled(steps []unrollStep, rest func() (string, error)) (stri
 	for k, v := range fx.scope {
 		before[k] = v
 	}
-	out, err := fx.block(append(append([]ast.Stmt{}, st.pre...), st.body...), func() (string, error) {
+	// the loop context as it is here; a continuation first puts it back (it may run from deep inside the body,
+	// also from inside inner loops, whose own contexts are then dropped - exactly what the jump does)
+	depthPat, depthK := len(fx.loopPat), len(fx.loopK)
+	wrap := fx.retWrap
+	leave := func() {
 		fx.consts = saved
-		fx.scope = before
+		fx.scope = map[string]types.Type{}
+		for k, v := range before {
+			fx.scope[k] = v
+		}
+		fx.loopPat = fx.loopPat[:depthPat]
+		fx.loopK = fx.loopK[:depthK]
+		fx.retWrap = wrap
+	}
+	next := func() (string, error) {
+		leave()
 		return fx.unrolled(steps[1:], rest)
-	})
+	}
+	after := func() (string, error) {
+		leave()
+		return rest()
+	}
+	fx.loopPat = append(fx.loopPat, "")
+	fx.loopK = append(fx.loopK, loopConts{cont: next, brk: after})
+	out, err := fx.block(append(append([]ast.Stmt{}, st.pre...), st.body...), next)
 	return out, err
 }
 
@@ -1223,12 +1305,27 @@ func (fx *fnCtx) ifStmt(s *ast.IfStmt, rest func() (string, error)) (string, err
 	for k, v := range fx.scope {
 		outer[k] = v
 	}
+	outerConsts := map[string]int64{}
+	for k, v := range fx.consts {
+		outerConsts[k] = v
+	}
+	outerPat := append([]string{}, fx.loopPat...)
+	outerK := append([]loopConts{}, fx.loopK...)
+	outerWrap := fx.retWrap
 	restore := func() {
-		// names declared inside a branch go out of scope (and may be re-declared later)
+		// names declared inside a branch go out of scope (and may be re-declared later); the loop context is
+		// the one of this statement again (translating a branch runs the continuation, which may leave loops)
 		fx.scope = map[string]types.Type{}
 		for k, v := range outer {
 			fx.scope[k] = v
 		}
+		fx.consts = map[string]int64{}
+		for k, v := range outerConsts {
+			fx.consts[k] = v
+		}
+		fx.loopPat = append([]string{}, outerPat...)
+		fx.loopK = append([]loopConts{}, outerK...)
+		fx.retWrap = outerWrap
 	}
 	if hasRet {
 		// duplicate the continuation into both branches
@@ -1438,6 +1535,24 @@ func (fx *fnCtx) declare(id *ast.Ident, tok token.Token, ty types.Type) error {
 // update builds `let root := { root with path := v }` for nested field / constant-index targets.
 func (fx *fnCtx) update(lhs, rhs ast.Expr) (string, error) {
 	if ie, ok := lhs.(*ast.IndexExpr); ok {
+		if sl, isSlice := types.Unalias(fx.pi.info.Types[ie.X].Type).Underlying().(*types.Slice); isSlice {
+			id, isId := ie.X.(*ast.Ident)
+			if !isId || !fx.storable[id.Name] {
+				return "", fmt.Errorf("store into a slice that may be aliased is outside the subset")
+			}
+			if _, inScope := fx.scope[id.Name]; !inScope {
+				return "", fmt.Errorf("assignment through unknown variable %s", id.Name)
+			}
+			v, err := fx.exprAs(rhs, sl.Elem())
+			if err != nil {
+				return "", err
+			}
+			ix, err := fx.exprAs(ie.Index, types.Typ[types.Int])
+			if err != nil {
+				return "", err
+			}
+			return fmt.Sprintf("let %s := List.set %s (Int.toNat %s) %s", ident(id.Name), ident(id.Name), ix, v), nil
+		}
 		if _, isConst := fx.constInt(ie.Index); !isConst {
 			id, isId := ie.X.(*ast.Ident)
 			n, isArr := fx.arrayLen(fx.pi.info.Types[ie.X].Type)
@@ -1682,6 +1797,11 @@ func (fx *fnCtx) exprAs(e ast.Expr, want types.Type) (string, error) {
 		if x.Name == "true" || x.Name == "false" {
 			return x.Name, nil
 		}
+		if x.Name == "nil" && want != nil {
+			if sl, isSlice := types.Unalias(want).Underlying().(*types.Slice); isSlice {
+				return fx.t.zeroValue(sl)
+			}
+		}
 		return "", fmt.Errorf("identifier %s is outside the subset (global or unknown)", x.Name)
 	case *ast.UnaryExpr:
 		switch x.Op {
@@ -1787,6 +1907,33 @@ func (fx *fnCtx) exprAs(e ast.Expr, want types.Type) (string, error) {
 		return fx.composite(x)
 	case *ast.CallExpr:
 		return fx.call(x, want)
+	case *ast.SliceExpr:
+		// s[a:b] as a value (reads only; element stores are restricted to unaliased locals, see storableSlices)
+		sl, isSlice := types.Unalias(fx.pi.info.Types[x.X].Type).Underlying().(*types.Slice)
+		if !isSlice || x.Slice3 {
+			return "", fmt.Errorf("slice expression on a non-slice is outside the subset")
+		}
+		if _, err := fx.t.leanType(sl); err != nil {
+			return "", err
+		}
+		a, err := fx.exprAs(x.X, nil)
+		if err != nil {
+			return "", err
+		}
+		lo := "(0 : Int)"
+		if x.Low != nil {
+			if lo, err = fx.exprAs(x.Low, types.Typ[types.Int]); err != nil {
+				return "", err
+			}
+		}
+		if x.High == nil {
+			return "(List.drop (Int.toNat " + lo + ") " + a + ")", nil
+		}
+		hi, err := fx.exprAs(x.High, types.Typ[types.Int])
+		if err != nil {
+			return "", err
+		}
+		return "(List.take (Int.toNat (" + hi + " - " + lo + ")) (List.drop (Int.toNat " + lo + ") " + a + "))", nil
 	}
 	return "", fmt.Errorf("unsupported expression %T", e)
 }
@@ -1964,6 +2111,24 @@ func (fx *fnCtx) composite(x *ast.CompositeLit) (string, error) {
 			parts = append(parts, fmt.Sprintf("e%d := %s", i, v))
 		}
 		return "({ " + strings.Join(parts, ", ") + " } : " + lt + ")", nil
+	}
+	if sl, isSlice := types.Unalias(tv.Type).Underlying().(*types.Slice); isSlice {
+		lt, err := fx.t.leanType(sl)
+		if err != nil {
+			return "", err
+		}
+		var parts []string
+		for _, el := range x.Elts {
+			if _, kv := el.(*ast.KeyValueExpr); kv {
+				return "", fmt.Errorf("keyed slice literal is outside the subset")
+			}
+			v, err := fx.exprAs(el, sl.Elem())
+			if err != nil {
+				return "", err
+			}
+			parts = append(parts, v)
+		}
+		return "([" + strings.Join(parts, ", ") + "] : " + lt + ")", nil
 	}
 	named, ok := types.Unalias(tv.Type).(*types.Named)
 	if !ok {
@@ -2232,6 +2397,56 @@ func (fx *fnCtx) call(x *ast.CallExpr, want types.Type) (string, error) {
 			}
 			return "", fmt.Errorf("len of %s is outside the subset", at)
 		}
+		if b, isBuiltin := fx.pi.info.Uses[f].(*types.Builtin); isBuiltin && b.Name() == "make" && (len(x.Args) == 2 || len(x.Args) == 3) {
+			sl, isSlice := types.Unalias(fx.pi.info.Types[x].Type).Underlying().(*types.Slice)
+			if !isSlice {
+				return "", fmt.Errorf("make of a non-slice is outside the subset")
+			}
+			if _, err := fx.t.leanType(sl); err != nil {
+				return "", err
+			}
+			z, err := fx.t.zeroValue(sl.Elem())
+			if err != nil {
+				return "", err
+			}
+			n, err := fx.exprAs(x.Args[1], types.Typ[types.Int])
+			if err != nil {
+				return "", err
+			}
+			return "(List.replicate (Int.toNat " + n + ") " + z + ")", nil
+		}
+		if b, isBuiltin := fx.pi.info.Uses[f].(*types.Builtin); isBuiltin && b.Name() == "append" && len(x.Args) >= 1 {
+			sl, isSlice := types.Unalias(fx.pi.info.Types[x].Type).Underlying().(*types.Slice)
+			if !isSlice {
+				return "", fmt.Errorf("append to a non-slice")
+			}
+			if _, err := fx.t.leanType(sl); err != nil {
+				return "", err
+			}
+			a, err := fx.exprAs(x.Args[0], fx.pi.info.Types[x].Type)
+			if err != nil {
+				return "", err
+			}
+			if x.Ellipsis.IsValid() {
+				if len(x.Args) != 2 {
+					return "", fmt.Errorf("unsupported append form")
+				}
+				b, err := fx.exprAs(x.Args[1], fx.pi.info.Types[x].Type)
+				if err != nil {
+					return "", err
+				}
+				return "(" + a + " ++ " + b + ")", nil
+			}
+			var parts []string
+			for _, e := range x.Args[1:] {
+				v, err := fx.exprAs(e, sl.Elem())
+				if err != nil {
+					return "", err
+				}
+				parts = append(parts, v)
+			}
+			return "(" + a + " ++ [" + strings.Join(parts, ", ") + "])", nil
+		}
 		callee, ok := fx.pi.info.Uses[f].(*types.Func)
 		if !ok {
 			return "", fmt.Errorf("call of %s is outside the subset (builtin, closure or variable)", f.Name)
@@ -2254,6 +2469,43 @@ func (fx *fnCtx) call(x *ast.CallExpr, want types.Type) (string, error) {
 
 func (fx *fnCtx) mathCall(name string, args []ast.Expr) (string, error) {
 	f64 := types.Typ[types.Float64]
+	switch name {
+	case "Inf":
+		if len(args) == 1 {
+			if sgn, ok := fx.constInt(args[0]); ok {
+				if sgn >= 0 {
+					return "(HasInf.posInf : α)", nil
+				}
+				return "(HasInf.negInf : α)", nil
+			}
+		}
+		return "", fmt.Errorf("math.Inf with a non-constant sign is outside the subset")
+	case "IsNaN":
+		if len(args) == 1 {
+			a, err := fx.exprAs(args[0], f64)
+			if err != nil {
+				return "", err
+			}
+			return "(HasInf.isNaN " + a + ")", nil
+		}
+	case "IsInf":
+		if len(args) == 2 {
+			if sgn, ok := fx.constInt(args[1]); ok {
+				a, err := fx.exprAs(args[0], f64)
+				if err != nil {
+					return "", err
+				}
+				switch {
+				case sgn > 0:
+					return "(feq " + a + " (HasInf.posInf : α))", nil
+				case sgn < 0:
+					return "(feq " + a + " (HasInf.negInf : α))", nil
+				}
+				return "(let _x := " + a + "; (feq _x (HasInf.posInf : α) || feq _x (HasInf.negInf : α)))", nil
+			}
+		}
+		return "", fmt.Errorf("math.IsInf with a non-constant sign is outside the subset")
+	}
 	un := map[string]string{"Sqrt": "HasSqrt.sqrt", "Abs": "absS",
 		// libm functions: uninterpreted in theorems (class HasLibm), Float's own at run time (not bit-compatible
 		// with Go's pure-Go implementations, so entries that use them are excluded from the bit-exact validation)
@@ -2311,7 +2563,7 @@ func (t *T) Emit(module string, roots []Root) string {
 		}
 		return lits[i] < lits[j]
 	})
-	sb.WriteString("section\nvariable {α : Type} [_root_.Add α] [_root_.Sub α] [_root_.Mul α] [_root_.Div α] [_root_.Neg α] [_root_.LT α] [DecidableLT α] [_root_.LE α] [DecidableLE α]\n  [_root_.OfScientific α] [HasSqrt α] [HasLibm α] [HasOfInt α]")
+	sb.WriteString("section\nvariable {α : Type} [_root_.Add α] [_root_.Sub α] [_root_.Mul α] [_root_.Div α] [_root_.Neg α] [_root_.LT α] [DecidableLT α] [_root_.LE α] [DecidableLE α]\n  [_root_.OfScientific α] [HasSqrt α] [HasLibm α] [HasOfInt α] [HasInf α]")
 	for _, l := range lits {
 		sb.WriteString(" [_root_.OfNat α " + l + "]")
 	}
@@ -2478,6 +2730,7 @@ type TableEntry struct {
 	NOut    int
 	Mutates bool
 	Libm    bool // uses cos/sin/pow...: not bit-comparable with Go's implementations
+	Var     bool // variable-shape entry (kernelTableV): slices / ints in the signature
 }
 
 // emitTable renders `kernelTable`: every root whose parameters and results flatten to floats
@@ -2489,6 +2742,7 @@ func (t *T) emitTable(roots []Root) (string, []TableEntry) {
 	sb.WriteString("/-- name, number of float inputs, the generated definition at `Float` on flattened arguments. -/\n")
 	sb.WriteString("def kernelTable : List (String × Nat × (Array Float → List Float)) := [\n")
 	first := true
+	var vlines []string
 	for _, r := range roots {
 		fn := fullName(r.Dir, r.Recv, r.Name)
 		pi := t.dirs[r.Dir]
@@ -2513,6 +2767,10 @@ func (t *T) emitTable(roots []Root) (string, []TableEntry) {
 			args = append(args, s)
 		}
 		if !ok {
+			if line, okV := t.entryV(r, sig, fn); okV {
+				vlines = append(vlines, line)
+				entries = append(entries, TableEntry{Root: r, Mutates: false, Libm: t.usesLibm(fn, map[string]bool{}), Var: true})
+			}
 			continue
 		}
 		var outs []string
@@ -2540,6 +2798,10 @@ func (t *T) emitTable(roots []Root) (string, []TableEntry) {
 			}
 		}
 		if !ok || len(outs) == 0 {
+			if line, okV := t.entryV(r, sig, fn); okV {
+				vlines = append(vlines, line)
+				entries = append(entries, TableEntry{Root: r, Mutates: false, Libm: t.usesLibm(fn, map[string]bool{}), Var: true})
+			}
 			continue
 		}
 		if !first {
@@ -2549,6 +2811,11 @@ func (t *T) emitTable(roots []Root) (string, []TableEntry) {
 		fmt.Fprintf(&sb, "  (%q, %d, fun (a : Array Float) => let r := %s (α := Float) %s; ([%s] : List Float))", r.String(), idx, t.lean[fn], strings.Join(args, " "), strings.Join(outs, ", "))
 		entries = append(entries, TableEntry{Root: r, NIn: idx, NOut: len(outs), Mutates: t.mutates[fn], Libm: t.usesLibm(fn, map[string]bool{})})
 	}
+	sb.WriteString("]\n\n")
+	sb.WriteString(tableVPrelude)
+	sb.WriteString("/-- name, the generated definition at `Float` on the flat encoding (functions with slices / ints in the signature). -/\n")
+	sb.WriteString("def kernelTableV : List (String × (Array Float → List Float)) := [\n")
+	sb.WriteString(strings.Join(vlines, ",\n"))
 	sb.WriteString("]\n")
 	return sb.String(), entries
 }
